@@ -781,15 +781,19 @@ func (e *Env) callExpr(n *ast.CallExpr) Val {
 		bv := quoteSym("q!" + id.Name)
 		var kv Val
 		guard := []string{not(eq(m.S[0], "0")), sel(sel(e.arr(mi.domSite, SArr(mi.kSort, SBool)), m.S[0]), bv)}
+		var typing []string
 		if mi.strKey {
 			e.u.ensureStrKeys()
 			p, ln := app(strptrFn, bv), app(strlenFn, bv)
 			kv = Val{T: mt.Key(), S: []string{p, ln}, KeyID: bv}
-			guard = append(guard, eq(app(stridFn, p, ln), bv), le("0", ln), le(ln, "1099511627776"), le("0", p))
+			typing = append(typing, eq(app(stridFn, p, ln), bv), le("0", ln), le(ln, "1099511627776"), le("0", p))
+			if e.st != nil && e.st.mem != nil && e.specSites == nil {
+				typing = append(typing, le(add(p, ln), e.st.mem.alloc))
+			}
 		} else {
 			kv = Val{T: mt.Key(), S: []string{bv}}
 			if tf := e.u.typingFact(kv, e.st.mem); tf != "true" {
-				guard = append(guard, tf)
+				typing = append(typing, tf)
 			}
 		}
 		ne := e.withBound(id.Name, kv)
@@ -798,8 +802,10 @@ func (e *Env) callExpr(n *ast.CallExpr) Val {
 		ne.qfacts = &facts
 		body := ne.evalBool(n.Args[2])
 		e.quant = true
-		tf := and(dedup(facts)...)
+		tf := and(append(dedup(facts), typing...)...)
 		if name == "forallkey" {
+			// well-typedness of the key (and of what is loaded through it) is assumed when the formula is assumed and
+			// may be used when it is proved
 			if tf != "true" {
 				if e.assume {
 					body = and(tf, body)
